@@ -127,6 +127,10 @@ func (m *vMonitor) onReply(r vReply) {
 	if sum != ks.locked {
 		m.report("C17:locked-ne-sum", fmt.Sprintf("key %d: hand-kept locked=%d but live holds sum to %d (at reply %v)", r.key, ks.locked, sum, r))
 	}
+	// ---- C06: an expiry frees the hold's WHOLE depth (twin of the two C17 clauses, at the EXPRIED notice)
+	if r.result == protocol_RESULT_EXPRIED && (sum != ks.locked || r.lcount != sum%65536) {
+		m.report("C06:expiry-did-not-free-capacity", fmt.Sprintf("EXPRIED notice %v: the key's counter shows %d (LCount %d) but the remaining live holds sum to %d — capacity of the expired hold is still counted", r, ks.locked, r.lcount, sum))
+	}
 	if r.lcount != sum%65536 && !(r.result == protocol_RESULT_TIMEOUT && ri.op.flag&8 != 0) {
 		m.report("C17:lcount", fmt.Sprintf("reply %v reports LCount %d, true outstanding holds %d", r, r.lcount, sum))
 	}
